@@ -318,6 +318,13 @@ impl Client {
         Ok(session)
     }
 
+    /// The client's session pool (verification accessor: lets a checker place an
+    /// in-memory session in the pool so that the real request path runs without TCP/TLS)
+    #[cfg(feature = "verif")]
+    pub fn verif_session_pool(&self) -> &Arc<SessionPool> {
+        &self.session_pool
+    }
+
     /// Stop the background cleanup task in the session pool (primarily for tests)
     pub async fn stop_session_pool_cleanup(&self) {
         self.session_pool.stop_cleanup_task().await;
